@@ -26,7 +26,8 @@ SPEC = {
                 n_quick=2, n_thorough=40, shards_quick=1, shards_thorough=1, timeout_quick=600, timeout_thorough=1500)],
     "rule": "generated scripts on 1..3 real hashicorp/raft nodes (in-memory stores/transports) with the real go-libp2p-raft FSM, "
             "dsstate and LogOp: pin/unpin of rich random pins over 2..4 cids submitted at leader and followers, partitions, "
-            "snapshots (also with Persist held back, also with a leader snapshot installed meanwhile), restarts, the pinset after every FSM step, "
+            "snapshots (also with Persist held back, also with a leader snapshot installed meanwhile), the leader's snapshot delivered again to a "
+            "follower that is ahead of it (backward install), restarts, the pinset after every FSM step, "
             "the real OfflineState on a file-store copy of a member's newest own snapshot; plus boundary-value pins, "
             "malformed entries and pins with origins; and (R2) the real NewConsensus over libp2p + boltdb, 1 and 3 peers, with shutdown, "
             "restart on the same folder, install onto a restarted follower, OfflineState; and (R3) kill -9 of a child process running a "
@@ -40,7 +41,9 @@ SPEC = {
     "trusted": ["harness/raft/c01_rig_test.go: guard FSM (records Apply/Snapshot/Persist/Restore under one mutex, recovers panics), "
                 "recording PinTracker RPC service, redirect service standing for ConsensusRPCAPI (it names the committer of an acknowledged op), "
                 "in-memory snapshot store (complete snapshots only, newest = highest (term, index) as hashicorp's file store)",
-                "hashicorp/raft v1.1.1 (replication, commitment, snapshot install), its in-memory stores and transport",
+                "hashicorp/raft v1.1.1 (replication, commitment, snapshot install - in either direction: nothing is assumed about a snapshot "
+                "being installed only on a replica that is behind it; it was observed not to hold), its in-memory stores and transport; "
+                "the rig's re-sent InstallSnapshot request (leader's identity, term and newest snapshot) stands for the leader's duplicate",
                 "ugorji msgpack and golang protobuf byte formats"],
     "level_text": "Theorems (Props/C01.v) over the Gallina transcription of FSM.Apply/Snapshot/Persist/Restore, LogOp.ApplyTo, "
                   "dsstate Marshal/Unmarshal and ProtoMarshal/ProtoUnmarshal for every log and every schedule of apply, snapshot, "
@@ -52,6 +55,7 @@ SPEC = {
                   "(raft_ack_visible_on_committer, raft_ack_in_committer_pinset)",
     "level_note": "partial: commitment, durability of acknowledged entries and the single committed sequence are hashicorp/raft's "
                   "(assumed by the model, sampled by the rigs); model tied to code by differential testing",
-    "assumptions": ["hashicorp/raft applies committed entries in index order and installs only snapshots it persisted",
+    "assumptions": ["hashicorp/raft applies committed entries in index order (again from the snapshot's index after an install, which may be "
+                    "below what the replica had applied) and installs only snapshots it persisted",
                     "an entry acknowledged by Raft.Apply stays in the log (raft-boltdb durability)"],
 }
